@@ -305,14 +305,14 @@ func instantiateContainers(h []contOp, kind string, f contForm) (inputs []string
 			inputs = append(inputs, appendForm(op.Y, op.X, op.Z, i))
 		case "fail", "faillib":
 			// how the call fails and, for the library, which function and whether a function of the session calls it: source form
-			fsel := int(f.Salt>>11) + 5*i
+			fsel := int(c06Mix(f.Salt)>>8&0xfffff) + 5*i
 			how := []string{"cancel", "depth", "error", "cancel", "error", "depth", "cancel", "error"}[fsel%8]
-			if fsel%16 == 0 {
-				how = "deadline" // (milliseconds each: one in sixteen)
+			if fsel%32 == 0 {
+				how = "deadline" // (milliseconds each: one in thirty-two)
 			}
 			if op.Op == "faillib" {
 				where := "lib"
-				if (fsel/16)%2 == 1 {
+				if (fsel/32)%2 == 1 {
 					where = "lib-in-user"
 				}
 				inputs = append(inputs, failInput(how, where, "a, b, c", "c, a, b", "", fsel/3))
@@ -450,6 +450,13 @@ func c06Judge(inputs []string, obs []inObs, want string, side bool, target strin
 	return bad, msg
 }
 
+// c06Mix: a second hash of the transition's salt (the bits of the salt itself are correlated in the sampled transitions: the
+// sample is a condition on them).
+func c06Mix(salt uint32) uint32 {
+	h := (salt ^ salt>>13) * 0x5bd1e995
+	return h ^ h>>15
+}
+
 // c06Run runs a session (sessions with failing inputs: under their limits, failing.go).
 func c06Run(inputs []string) []inObs {
 	if hasFailInput(inputs) {
@@ -512,6 +519,7 @@ func checkC06(c *Ctx) {
 		return
 	}
 	failInputs, failMissed := 0, 0 // inputs meant to fail inside a call / those without a deadline that did not fail
+	failHow := map[string]int{}    // how they failed (the start of the error message)
 	seen := map[string]bool{}
 	usedChains := map[string]int{}
 	for si, sp := range spaces {
@@ -533,6 +541,9 @@ func checkC06(c *Ctx) {
 			if sampled && (uint64(salt^salt>>15)&0xffff)*uint64(stride)>>16 != 0 {
 				return nil
 			}
+			if sampled && c06Mix(salt)>>31 == 1 && bytes.Contains(line, []byte(`"op":"fail`)) {
+				return nil // (10 instances per state, and the witness histories that contain one: the sample takes every other one of them)
+			}
 			var g contLine
 			if err := json.Unmarshal(line, &g); err != nil {
 				return err
@@ -540,6 +551,7 @@ func checkC06(c *Ctx) {
 			if op := g.H[len(g.H)-1].Op; !c.Thorough() && (op == "concat" || op == "overwrite") && salt>>31 == 1 {
 				return nil // (27 and 18 instances per state: the sample takes every other one of them)
 			}
+
 			form := contForm{Salt: salt, Chain: chains[0]}
 			if n%2 == 1 { // every other behaviour with other source forms of its initial value and copies, and other keys
 				form.Variant = 1 + int(salt>>9)%30
@@ -564,6 +576,9 @@ func checkC06(c *Ctx) {
 			for i, in := range inputs {
 				if isFailInput(in) {
 					failInputs++
+					if obs[i].Err {
+						failHow[strings.SplitN(strings.TrimPrefix(strings.TrimPrefix(obs[i].Val, "panic: "), "<err: "), ":", 2)[0]]++
+					}
 					if !obs[i].Err && !strings.Contains(in, c10ShortMark) { // (a deadline can fire too late on a loaded machine)
 						failMissed++
 					}
@@ -608,6 +623,7 @@ func checkC06(c *Ctx) {
 		return
 	}
 	c.Cov("inputs_failing_inside_a_call", failInputs)
+	c.Cov("inputs_failing_inside_a_call_by_error", failHow)
 	c.Cov("map_key_chains", usedChains)
 	for range devs {
 		if err := <-devDone; err != nil {
